@@ -43,6 +43,17 @@ def rand_table(rnd, nmax=12, mixed=False):
     return rows
 
 
+def collide(rnd, rows):
+    """rows whose TWO category values differ only in where a separator-looking text falls: (k, c) = ('a,string:b', 'c') and
+    ('a', 'b,string:c') are different categories"""
+    sep = rnd.choice([',string:', ',', '","', ':'])
+    extra = [{'k': 'a' + sep + 'b', 'c': 'c', 'a': 1, 'b': 2}, {'k': 'a', 'c': 'b' + sep + 'c', 'a': 3, 'b': 4},
+             {'k': 'a' + sep + 'b', 'c': 'c', 'a': 5, 'b': 6}]
+    rows = list(rows) + extra
+    rnd.shuffle(rows)
+    return rows, ['k', 'c']
+
+
 def names_of(*tables, extra=()):
     n = set(extra)
     for t in tables:
@@ -104,6 +115,8 @@ def one_case(seed):
     elif kind == 'top':
         rows = rand_table(rnd, mixed=True)
         cats = rnd.sample(FIELDS, rnd.randint(0, 2))
+        if rnd.random() < 0.15:
+            rows, cats = collide(rnd, rows)
         count = rnd.randint(1, 3)
         ids = {id(r): i + 1 for i, r in enumerate(rows)}
         c['rows'] = [A.aval(r) for r in rows]
@@ -117,6 +130,8 @@ def one_case(seed):
     elif kind == 'aggregate':
         rows = rand_table(rnd, mixed=True)
         cats = rnd.sample(['k', 'c', 'a2', 'b'], rnd.randint(0, 2))
+        if rnd.random() < 0.15:
+            rows, cats = collide(rnd, rows)
         ms = []
         for i in range(rnd.randint(1, 3)):
             fn = rnd.choice(['count', 'sum', 'min', 'max', 'average', 'stddev'])
@@ -162,7 +177,7 @@ def one_case(seed):
                 elif col == 'n':
                     r[col] = rnd.choice([0, 1, -2, 1.5, 1000000, 2.25, 1e21, 0.001])
                 elif col == 's':
-                    r[col] = rnd.choice(['x', 'a,b', 'say "hi"', 'x y', 'O\'Neil', 'back\\slash', 'ends with \\', '\\', 'a\\"b', '2024-02-30', '2023-13-01', '2024-02-30T10:00:00Z', '2023-04-31T00:00:00+02:00', '2024-01-01T24:30:00Z', '2024-06-01T10:61:00-05:00', 'twelve', '1.0]', 'etc., z', '12abc', 'tru'])
+                    r[col] = rnd.choice(['x', 'a,b', 'say "hi"', 'x y', 'O\'Neil', 'True', 'FALSE', 'tRue', 'NULL', 'Null', 'back\\slash', 'ends with \\', '\\', 'a\\"b', '2024-02-30', '2023-13-01', '2024-02-30T10:00:00Z', '2023-04-31T00:00:00+02:00', '2024-01-01T24:30:00Z', '2024-06-01T10:61:00-05:00', 'twelve', '1.0]', 'etc., z', '12abc', 'tru'])
                 elif col == 'b':
                     r[col] = rnd.choice([True, False])
                 elif col == 'd':
